@@ -44,7 +44,10 @@ CONTROL = P.CONTROL_TYPES
 
 
 def st_interval(thorough):
-    counts = st.sampled_from([1, 1, 1, 2, 3, 5] + ([200, 65535] if thorough else [40]))
+    counts = st.sampled_from([1, 1, 1, 2, 3, 5] + ([200] if thorough else [40]))
+    if thorough:
+        # the maximum count costs 65535 manager rounds: about one interval in sixty
+        counts = st.one_of(*([counts] * 59 + [st.just(65535)]))
     return st.fixed_dictionaries(dict(
         k=st.sampled_from(DISTINCT), base=st.integers(100, 9000), stride=st.sampled_from([1, 1, 7, 33]),
         count=counts, special=st.lists(st.sampled_from(SPECIAL_TYPES), max_size=3),
@@ -237,8 +240,19 @@ class StatsWorld:
             # counted by the manager, delivered to nobody
             t = types[b % len(types)] if types else 1234
             jobs.append((t, 201 if b == 0 else 0, 0 if b == 0 else 6))
-            self.seen_timing[t] += 1
-            self.seen_traffic[t] += 1
+        # counts above 65535 per type and interval are outside the stated domain (uint16 fields): trim
+        per_type = Counter()
+        kept = []
+        for job in jobs:
+            room = 65535 - self.seen_traffic.get(job[0], 0) - self.seen_timing.get(job[0], 0)
+            if per_type[job[0]] < min(65535, room):
+                per_type[job[0]] += 1
+                kept.append(job)
+        jobs = kept
+        for t, dm, dh in jobs:
+            if dm > 200 or dh > 5:
+                self.seen_timing[t] += 1
+                self.seen_traffic[t] += 1
         ev = iv["event"]
         if ev == "connect":
             mid = 40 + len(self.extra)
@@ -306,7 +320,7 @@ def shard(seed, n, thorough):
 
 def run(ctx: RunContext) -> int:
     t0 = time.time()
-    n = ctx.scale(150, 2500)
+    n = ctx.scale(150, 500)
     res = run_shards(shard, [(derive_seed(ctx.seed, i), n, not ctx.quick) for i in range(16)])
     return conclude(ctx, res, RULE, ASSUME, t0)
 
